@@ -59,6 +59,8 @@ struct Keys<B: Backend> {
     secret: SecretKey<B>,
     public: PublicKey<B>,
     pke_sec: PkeSec<B>,
+    /// the recipient's public key as a long-lived object (parsing a key has side effects in some backends, e.g. on a library error queue)
+    pke_pub: PkePub<B>,
 }
 
 struct Material {
@@ -85,7 +87,7 @@ struct Material {
 fn fresh<B: Backend>(m: &Material) -> Keys<B> {
     let secret: SecretKey<B> = key_from_bytes(&m.secret).unwrap();
     let public = secret.public_key();
-    Keys { local: key_from_bytes(&m.local).unwrap(), public, secret, pke_sec: key_from_bytes(&m.pke_secret).unwrap() }
+    Keys { local: key_from_bytes(&m.local).unwrap(), public, secret, pke_sec: key_from_bytes(&m.pke_secret).unwrap(), pke_pub: key_from_bytes(&m.pke_public).unwrap() }
 }
 
 fn flip_mid(s: &str) -> String {
@@ -184,7 +186,7 @@ fn apply<B: Backend>(v: &str, k: &Keys<B>, m: &Material, check: &Keys<B>) -> (Ou
         }
         // sealing / wrapping the shared local key (fresh randomness each time): the result opens to the same key with a fresh copy
         "seal-key" => {
-            let t = key_from_bytes::<B::V, paseto_core::version::PkePublic>(&m.pke_public).and_then(|pk| k.local.clone().seal(&pk)).map(|x| x.to_string());
+            let t = k.local.clone().seal(&k.pke_pub).map(|x| x.to_string());
             let post = t.as_ref().ok().map(|s| SealedKey::<B::V>::from_str(s).and_then(|w| w.unseal(&check.pke_sec)).map(|x| key_bytes(&x) == m.local).unwrap_or(false)).unwrap_or(false);
             (r(t.map(|s| s.into_bytes())), false, post)
         }
@@ -404,7 +406,7 @@ where
                 }
                 if t == 0 {
                     if let Some((c, p)) = held.pop() {
-                        survivors.lock().unwrap().push(Keys { local: shared.local.clone(), public: p, secret: c, pke_sec: shared.pke_sec.clone() });
+                        survivors.lock().unwrap().push(Keys { local: shared.local.clone(), public: p, secret: c, pke_sec: shared.pke_sec.clone(), pke_pub: shared.pke_pub.clone() });
                     }
                 }
                 n
